@@ -118,6 +118,8 @@ def gen(rng, p_keep=0.5, cheap=True):
         d["ticket_count"] = rng.choice([0, 1, 2, 3])
     if rng.random() > 0.9:
         d["usePaddingExtension"] = False
+    if rng.random() > 0.93:
+        d["sendFallbackSCSV"] = True
     if rng.random() > 0.85:
         # back ends in any order, with repetitions (python always among them)
         impl = [rng.choice(["openssl", "pycrypto", "python"])
